@@ -1,8 +1,10 @@
 package main
 
 import (
+	"bytes"
 	"fmt"
 	"go/ast"
+	"go/printer"
 	"go/token"
 	"sort"
 	"strings"
@@ -150,6 +152,85 @@ func genCss(files []*srcFile) {
 		}
 	}
 
+	// handler bodies of the keyword shape:  [if R.MatchString(value) { return true }]*  values := []string{..};
+	// splitVals := splitValues(value); return in(splitVals, values)   -- and the two helpers they call, text for text
+	wantSplitValues := "func splitValues(value string) []string {\n\tvalues := strings.Split(value, \",\")\n\tnewValues := []string{}\n\tfor _, strippedValue := range values {\n\t\tnewValues = append(newValues, strings.ToLower(strings.TrimSpace(strippedValue)))\n\t}\n\treturn newValues\n}"
+	wantIn := "func in(value []string, arr []string) bool {\n\tfor _, i := range value {\n\t\tfoundString := false\n\t\tfor _, j := range arr {\n\t\t\tif j == i {\n\t\t\t\tfoundString = true\n\t\t\t}\n\t\t}\n\t\tif !foundString {\n\t\t\treturn false\n\t\t}\n\t}\n\treturn true\n}"
+	helpersOK := nodeText(cssFile, findFuncIn(cssFile, "splitValues")) == wantSplitValues && nodeText(cssFile, findFuncIn(cssFile, "in")) == wantIn
+	type kwh struct {
+		fn    string
+		rx    []string
+		words []string
+	}
+	var kwHandlers []kwh
+	if helpersOK {
+		for _, d := range cssFile.file.Decls {
+			fd, ok := d.(*ast.FuncDecl)
+			if !ok || fd.Body == nil || fd.Recv != nil || len(fd.Type.Params.List) != 1 || len(fd.Type.Params.List[0].Names) != 1 || fd.Type.Params.List[0].Names[0].Name != "value" {
+				continue
+			}
+			st := fd.Body.List
+			var rx []string
+			for len(st) > 0 {
+				is, ok := st[0].(*ast.IfStmt)
+				if !ok || is.Init != nil || is.Else != nil || len(is.Body.List) != 1 {
+					break
+				}
+				ce, ok := is.Cond.(*ast.CallExpr)
+				rs, ok2 := is.Body.List[0].(*ast.ReturnStmt)
+				if !ok || !ok2 || len(rs.Results) != 1 || !isIdent(rs.Results[0], "true") || len(ce.Args) != 1 || !isIdent(ce.Args[0], "value") {
+					break
+				}
+				sel, ok := ce.Fun.(*ast.SelectorExpr)
+				if !ok || sel.Sel.Name != "MatchString" {
+					break
+				}
+				id, ok := sel.X.(*ast.Ident)
+				if !ok || !regexVars[id.Name] {
+					break
+				}
+				rx = append(rx, id.Name)
+				st = st[1:]
+			}
+			if len(st) != 3 {
+				continue
+			}
+			a1, ok1 := st[0].(*ast.AssignStmt)
+			a2, ok2 := st[1].(*ast.AssignStmt)
+			r3, ok3 := st[2].(*ast.ReturnStmt)
+			if !ok1 || !ok2 || !ok3 || a1.Tok != token.DEFINE || a2.Tok != token.DEFINE || len(a1.Lhs) != 1 || len(a2.Lhs) != 1 || len(a1.Rhs) != 1 || len(a2.Rhs) != 1 || len(r3.Results) != 1 {
+				continue
+			}
+			if !isIdent(a1.Lhs[0], "values") || !isIdent(a2.Lhs[0], "splitVals") {
+				continue
+			}
+			cl, ok := a1.Rhs[0].(*ast.CompositeLit)
+			if !ok {
+				continue
+			}
+			at, ok := cl.Type.(*ast.ArrayType)
+			if !ok || at.Len != nil || !isIdent(at.Elt, "string") {
+				continue
+			}
+			var ws []string
+			good := true
+			for _, e := range cl.Elts {
+				w, ok := strLit(e)
+				good = good && ok
+				ws = append(ws, w)
+			}
+			c2, ok := a2.Rhs[0].(*ast.CallExpr)
+			if !good || !ok || !isIdent(c2.Fun, "splitValues") || len(c2.Args) != 1 || !isIdent(c2.Args[0], "value") {
+				continue
+			}
+			c3, ok := r3.Results[0].(*ast.CallExpr)
+			if !ok || !isIdent(c3.Fun, "in") || len(c3.Args) != 2 || !isIdent(c3.Args[0], "splitVals") || !isIdent(c3.Args[1], "values") {
+				continue
+			}
+			kwHandlers = append(kwHandlers, kwh{fd.Name.Name, rx, ws})
+		}
+	}
+
 	var b strings.Builder
 	b.WriteString("(* GENERATED by /verif/go/cmd/gen from /repo/css/handlers.go. Do not edit. *)\n")
 	b.WriteString("From Coq Require Import List NArith String.\nImport ListNotations.\nFrom BM Require Import Bytes Regex GenRegex.\nOpen Scope N_scope.\n\n")
@@ -197,8 +278,25 @@ func genCss(files []*srcFile) {
 		}
 		fmt.Fprintf(&b, "  (\"%s\"%%string, %s)%s\n", l.where, coqBytesList(l.words), sep)
 	}
+	b.WriteString("].\n\n(* handlers whose whole body is  [if R.MatchString(value) { return true }]*  values := []string{..};\n   splitVals := splitValues(value); return in(splitVals, values)  with splitValues and in as modelled in Model/KwHandler.v\n   (gen compares the two helpers text for text): function, acceptor regexps, keywords *)\nDefinition css_kw_handlers : list (string * (list string * list bytes)) := [\n")
+	for i, h := range kwHandlers {
+		sep := ";"
+		if i == len(kwHandlers)-1 {
+			sep = ""
+		}
+		var rs []string
+		for _, r := range h.rx {
+			rs = append(rs, "\""+r+"\"%string")
+		}
+		fmt.Fprintf(&b, "  (\"%s\"%%string, ([%s], %s))%s\n", h.fn, strings.Join(rs, "; "), coqBytesList(h.words), sep)
+	}
 	b.WriteString("].\n")
 	writeIfChanged("GenCss.v", b.String())
+	var kh strings.Builder
+	for _, h := range kwHandlers {
+		fmt.Fprintf(&kh, "%s\t%s\n", h.fn, strings.Join(h.rx, ","))
+	}
+	writeIfChanged("css_kw_handlers.tsv", kh.String())
 
 	var t strings.Builder
 	for _, e := range table {
@@ -225,4 +323,16 @@ func findFuncIn(sf *srcFile, name string) *ast.FuncDecl {
 	}
 	fatal("%s: function %s not found", sf.path, name)
 	return nil
+}
+
+// nodeText: the source text of a declaration
+func nodeText(sf *srcFile, n ast.Node) string {
+	if n == nil {
+		return ""
+	}
+	var b bytes.Buffer
+	if err := printer.Fprint(&b, fset, n); err != nil {
+		return ""
+	}
+	return b.String()
 }
